@@ -1,5 +1,5 @@
 CONSTANTS
- GAME = "twomates"
+ GAME = "qs"
  Collide = FALSE
  PriorTables = FALSE
  Nodes <- GNodes
@@ -10,7 +10,7 @@ CONSTANTS
  Static <- GStatic
  Status <- GStatus
  Key <- GKey
- History = {"A"}
+ History = {}
  Workers = 2
  MaxIter = 3
  MinPar = 1
@@ -26,4 +26,5 @@ CHECK_DEADLOCK FALSE
 INVARIANT LegalLine
 INVARIANT MateSound
 INVARIANT MateFound
-INVARIANT RepetitionAvoided
+INVARIANT NoPanic
+INVARIANT ReportBeforeEnd
